@@ -155,6 +155,9 @@ func runC09(s *spec.Spec, logPath string) {
 					}
 					simrt.Probe("fault_step_flood")
 					simrt.Probe("flood_" + fl.Unit + "_" + floodKind(fl))
+					if fl.Stride == 0 {
+						simrt.Probe("flood_hot_key")
+					}
 					if fl.Count > 128 {
 						simrt.Probe("flood_over_128_distinct")
 					}
